@@ -33,7 +33,7 @@ REQUIRED_LABELS = {"has-zero-node": 0.1, "has-denominator": 0.1, "mode:poly": 0.
 
 def budget(tier):
     n = int(os.environ.get("KV_EXAMPLES", 0)) or (24000 if tier == "quick" else 400000)
-    return {"examples": n, "shards": 16, "wall": 90 if tier == "quick" else 900}
+    return {"examples": n, "shards": 16, "wall": 90 if tier == "quick" else 900, "fuzz_runs": 40000 if tier == "thorough" else 0}
 
 
 def _tree(depth, poly):
